@@ -1148,6 +1148,12 @@ fn expand(v: &Value, defs: &JMap<String, Value>, path: &mut Vec<String>) -> Valu
 /// What the conversion of `T`'s own schema looks like, expanded; `None` if the converter
 /// refuses the type (then it cannot be part of a document at all).
 fn own_expanded<T: JsonSchema>() -> Option<Value> {
+    own_expanded_as::<T>(true)
+}
+
+/// `as_root`: converted with the type's name, as the root of a body is (a title is added to
+/// an unnamed root); parameter and header members are converted without.
+fn own_expanded_as<T: JsonSchema>(as_root: bool) -> Option<Value> {
     let settings = schemars::gen::SchemaSettings::openapi3();
     let mut generator = schemars::gen::SchemaGenerator::new(settings);
     let root = generator.subschema_for::<T>();
@@ -1157,7 +1163,7 @@ fn own_expanded<T: JsonSchema>() -> Option<Value> {
         let (s2, n2) = (s.clone(), n.cloned());
         catch(move || hooks::j2oas_schema(n2.as_ref(), &s2)).ok()
     };
-    let r = conv(Some(&name), &root)?;
+    let r = conv(if as_root { Some(&name) } else { None }, &root)?;
     let mut defs = JMap::new();
     for (k, v) in &rs.definitions {
         defs.insert(k.clone(), conv(None, v)?);
@@ -1256,6 +1262,160 @@ fn da_shared_entry(i: usize) -> DaEntry {
     ("shared_Span".to_string(), own_expanded::<shared::Span>(), ep)
 }
 
+/// Named types that occur in the document ONLY as parameter / response-header members (never
+/// in a body), among them newtypes around other named types: the definitions behind such
+/// members reach `components.schemas` through the pre-generated dependency lists alone.
+mod params_only {
+    use schemars::JsonSchema;
+    use serde::{Deserialize, Serialize};
+    /// A disk's name: 1-63 characters.
+    #[derive(Deserialize, Serialize, JsonSchema)]
+    pub struct PName(#[schemars(length(min = 1, max = 63))] pub String);
+    /// The name of a disk (a name).
+    #[derive(Deserialize, Serialize, JsonSchema)]
+    pub struct PDiskName(pub PName);
+    /// Twice removed.
+    #[derive(Deserialize, Serialize, JsonSchema)]
+    pub struct PAlias(pub PDiskName);
+    #[derive(Deserialize, Serialize, JsonSchema)]
+    #[serde(rename_all = "snake_case")]
+    pub enum PState {
+        Attached,
+        Detached,
+    }
+    /// State, by another name.
+    #[derive(Deserialize, Serialize, JsonSchema)]
+    pub struct PStateTag(pub PState);
+    #[derive(Deserialize, Serialize, JsonSchema)]
+    pub struct HName(#[schemars(length(min = 2, max = 5))] pub String);
+    /// A disk name in a header.
+    #[derive(Deserialize, Serialize, JsonSchema)]
+    pub struct HDiskName(pub HName);
+    /// An alias in a header.
+    #[derive(Deserialize, Serialize, JsonSchema)]
+    pub struct HAlias(pub HDiskName);
+    #[derive(Deserialize, Serialize, JsonSchema)]
+    pub enum HState {
+        On,
+        Off,
+    }
+    pub fn example_tag() -> HStateTag {
+        HStateTag(HState::On)
+    }
+    /// A state in a header.
+    #[derive(Deserialize, Serialize, JsonSchema)]
+    #[schemars(example = "example_tag")]
+    pub struct HStateTag(pub HState);
+    #[derive(Deserialize, Serialize, JsonSchema)]
+    pub struct QName(#[schemars(length(max = 7))] pub String);
+    pub fn example_qdisk() -> QDiskName {
+        QDiskName(QName("d0".to_string()))
+    }
+    #[derive(Deserialize, Serialize, JsonSchema)]
+    #[schemars(example = "example_qdisk")]
+    pub struct QDiskName(pub QName);
+
+    // wrappers without any annotation of their own: their definition is a bare reference
+    #[derive(Deserialize, Serialize, JsonSchema)]
+    pub struct HInner(#[schemars(length(min = 3, max = 4))] pub String);
+    #[derive(Deserialize, Serialize, JsonSchema)]
+    pub struct HBare(pub HInner);
+    #[derive(Deserialize, Serialize, JsonSchema)]
+    pub enum HMode {
+        Fast,
+        Slow,
+    }
+    #[derive(Deserialize, Serialize, JsonSchema)]
+    pub struct HModeTag(pub HMode);
+    #[derive(Deserialize, Serialize, JsonSchema)]
+    pub struct HModeTag2(pub HModeTag);
+    #[derive(Deserialize, JsonSchema)]
+    pub struct PathT {
+        pub name: PName,
+        pub disk: PDiskName,
+        pub alias: PAlias,
+        pub state: PStateTag,
+    }
+    #[derive(Deserialize, JsonSchema)]
+    pub struct QueryT {
+        pub q_direct: QName,
+        pub q_disk: QDiskName,
+        pub q_plain: Option<u16>,
+    }
+    #[derive(Serialize, JsonSchema)]
+    pub struct HeadersT {
+        pub x_name: HName,
+        pub x_disk: HDiskName,
+        pub x_alias: HAlias,
+        pub x_state: HStateTag,
+        pub x_plain: String,
+        pub x_bare: HBare,
+        pub x_mode: HModeTag2,
+    }
+}
+
+/// `dp` lines: one API whose only endpoint takes `PathT` and `QueryT` and answers with
+/// `HeadersT` (the body is a `u8`); for every documented parameter and response header, the
+/// published schema expanded through the document's components must be the member type's own
+/// converted schema.  Reported as `da` lines (document assembly).
+fn dp_stream(out: &mut Out, id: &mut u64) {
+    use params_only::*;
+    let ep = dropshot::ApiEndpoint::new_for_types::<
+        (dropshot::Path<PathT>, dropshot::Query<QueryT>),
+        Result<dropshot::HttpResponseHeaders<dropshot::HttpResponseOk<u8>, HeadersT>, dropshot::HttpError>,
+    >(
+        "dp".to_string(),
+        http::Method::GET,
+        "application/json",
+        "/dp/{name}/{disk}/{alias}/{state}",
+        dropshot::ApiEndpointVersions::All,
+    );
+    let mut api = dropshot::ApiDescription::<dropshot::StubContext>::new();
+    let registered = std::panic::catch_unwind(std::panic::AssertUnwindSafe(move || {
+        api.register(ep).map_err(|e| e.to_string())?;
+        api.openapi("t", semver::Version::new(1, 0, 0)).json().map_err(|e| e.to_string())
+    }));
+    let doc = match registered {
+        Ok(Ok(d)) => d,
+        _ => json!({}),
+    };
+    let empty = JMap::new();
+    let defs = doc["components"]["schemas"].as_object().unwrap_or(&empty);
+    let op = &doc["paths"]["/dp/{name}/{disk}/{alias}/{state}"]["get"];
+    let param = |name: &str| -> Value {
+        op["parameters"]
+            .as_array()
+            .and_then(|a| a.iter().find(|p| p["name"] == name))
+            .map(|p| p["schema"].clone())
+            .unwrap_or(Value::Null)
+    };
+    let header = |name: &str| -> Value { op["responses"]["200"]["headers"][name]["schema"].clone() };
+    let mut rows: Vec<(&str, Value, Option<Value>)> = vec![
+        ("param_path_PName", param("name"), own_expanded_as::<PName>(false)),
+        ("param_path_PDiskName", param("disk"), own_expanded_as::<PDiskName>(false)),
+        ("param_path_PAlias", param("alias"), own_expanded_as::<PAlias>(false)),
+        ("param_path_PStateTag", param("state"), own_expanded_as::<PStateTag>(false)),
+        ("param_query_QName", param("q_direct"), own_expanded_as::<QName>(false)),
+        ("param_query_QDiskName", param("q_disk"), own_expanded_as::<QDiskName>(false)),
+        ("header_HName", header("x_name"), own_expanded_as::<HName>(false)),
+        ("header_HDiskName", header("x_disk"), own_expanded_as::<HDiskName>(false)),
+        ("header_HAlias", header("x_alias"), own_expanded_as::<HAlias>(false)),
+        ("header_HStateTag", header("x_state"), own_expanded_as::<HStateTag>(false)),
+        ("header_String", header("x_plain"), own_expanded_as::<String>(false)),
+        ("header_HBare", header("x_bare"), own_expanded_as::<HBare>(false)),
+        ("header_HModeTag2", header("x_mode"), own_expanded_as::<HModeTag2>(false)),
+    ];
+    for (tname, published, own) in rows.drain(..) {
+        let pub_exp = expand(&published, defs, &mut Vec::new());
+        if std::env::var("VERIF_DEBUG").is_ok() && own.as_ref() != Some(&pub_exp) {
+            eprintln!("dp {}: published {} own {:?}", tname, pub_exp, own.as_ref().map(|o| o.to_string()));
+        }
+        let ok = own.map(|o| o == pub_exp).unwrap_or(false);
+        out.line(&format!("da {} {} 0 => {}", id, tname, ok as u8));
+        *id += 1;
+    }
+}
+
 fn da_stream(out: &mut Out, id: &mut u64, entries: Vec<DaEntry>, order_seed: u64) {
     // one document for all types the converter accepts, registered in a seeded order
     let mut usable: Vec<DaEntry> = entries.into_iter().filter(|e| e.1.is_some()).collect();
@@ -1344,6 +1504,8 @@ fn main() {
         }
     }
 
+    dp_stream(&mut out, &mut id);
+
     // ---- rs: random supported schemas --------------------------------------
     let n_rs = if is_thorough() { 20000 } else { 4000 };
     let mut r = Rng::from_env(1);
@@ -1358,6 +1520,25 @@ fn main() {
             hexj(&dump(&s)),
             convert(name.as_ref(), &s)
         ));
+        id += 1;
+    }
+
+    // ---- rv: schemas holding a reference with something beside it, through schemars'
+    // RemoveRefSiblings visitor (applied to every definition before it is published) and
+    // then the converter
+    let n_rv = if is_thorough() { 8000 } else { 1500 };
+    let mut r = Rng::from_env(3);
+    let mut made = 0;
+    while made < n_rv {
+        let depth = r.below(4) as u32;
+        let s = gen_schema(&mut r, depth);
+        if !dump(&s).to_string().contains("\"reference\"") {
+            continue;
+        }
+        made += 1;
+        let mut visited = s.clone();
+        schemars::visit::Visitor::visit_schema(&mut schemars::visit::RemoveRefSiblings, &mut visited);
+        out.line(&format!("rv {} - {} => {}", id, hexj(&dump(&s)), convert(None, &visited)));
         id += 1;
     }
 
